@@ -5,7 +5,7 @@ from harness.core import Z, S, L, O, T, Zl, B
 from harness.mlang import MODES, MODE_C
 from harness.props.C01 import rand_chord, rand_note
 
-MODEL_MODS = ["Model.Pitch", "Model.Ton"]
+MODEL_MODS = ["Model.Pitch", "Model.Ton", "Model.Render", "Model.Octave"]
 RULE = ("tonality pairs/triples with degrees -30..30 (un-normalised on purpose) x 9 modes x octaves -3..3; chords from the C01 "
         "generator (incl. modifier sets) x modulating tonality (same mode 70%, other mode 30%) x octave shifts -4..4 x "
         "non-relative notes of every kind; non-trivial = non-zero degree/octave or k != 0; distinct = distinct canonical JSON")
